@@ -164,6 +164,18 @@ PLAN = {
         quick=[rapid("containers", "TestPropA", 10000), rapid("tables", "TestPropB", 5000)],
         thorough=[rapid("containers", "TestPropA", 60000, shards=8), rapid("tables", "TestPropB", 30000, shards=16)],
     ),
+    "C12": dict(
+        pkg="c12",
+        rule=("stateful: rapid-generated histories of 3..30 (thorough 60) operations over set / set-to-nil / re-set-same-value / copy a cell by value / add a copied cell to a row / grow the table (0..24 cells, crossing the 10- and 20-entry capacities) / "
+              "AddHeaders / pending rows and attach / separators / take and keep a column handle, on owners {table, table through a wrapper, Column(n) fetched now, handles taken earlier, rows attached and pending and separators, live cells, header cells, by-value cell copies}, "
+              "keys from a pool mixing int(1), int64(1), \"1\", a named int type, a struct, two distinct pointers to equal values, uint8(1) and the library's own alignment key. Oracle: one map per owner; after EVERY step every key of the pool is read on EVERY owner "
+              "(so a cross-owner leak shows at once); re-setting a key to its current value must leave len(%#v owner) unchanged. Non-trivial: >=2 keys on one owner and a cell copy or a handle held across growth. Distinct: FNV-64 of the history."),
+        level_text="Model-based (stateful) property testing with a per-owner map model and a global read-back sweep after every step. Exploration level.",
+        level_note="Cell owners are re-resolved through the row at every use (only column handles are required to stay valid across growth). The growth check is representation-agnostic (length of the %#v rendering).",
+        technique="model-based stateful property testing (rapid) with a per-owner map model",
+        quick=[rapid("prop", "TestProp", 5000)],
+        thorough=[rapid("prop", "TestProp", 40000, shards=16)],
+    ),
     "C18": dict(
         pkg="c18",
         rule=("strings built from a width-hostile token alphabet (newlines leading/trailing/repeated, CJK wide, full-width, combining, zero-width, emoji ZWJ/flag/skin-tone sequences, "
